@@ -1,35 +1,71 @@
-(* C13 (3): Fourier1 per-direction factor f1s n enclosed by interval arithmetic, n in [3, 14, 22, 27]
+(* C13 (3): Fourier1 per-direction factor f1s n enclosed by interval arithmetic on its closed form, n in [6, 11, 22, 27, 38, 43, 54, 59]
    (file generated once by a script, split for parallel compilation; independent of /repo). *)
-From Coq Require Import ZArith List Reals Lra.
+From Coq Require Import ZArith List Lia Reals Lra.
 From Interval Require Import Tactic.
 From Flocq Require Import Raux.
-From P Require Import C13_gen C13_model C13_proofs_weights.
+From P Require Import C13_gen C13_model C13_proofs_weights C13_proofs_f1c.
 Open Scope R_scope.
 
-Lemma f1s_bound_3 : 1 - / IZR 3 <= f1s 3 <= 1.
+Lemma f1s_bound_6 : 1 - / IZR 6 <= f1s 6 <= 1.
 Proof.
-  assert (H : Rabs (f1s 3 - (1 - / IZR 3 / 2)) <= / IZR 3 / 2).
-  { unfold f1s, fourier1_dir, sumR. ev. interval. }
+  rewrite f1s_closed_form by (clear; lia).
+  assert (H : Rabs (f1s_closed 6 - (1 - / IZR 6 / 2)) <= / IZR 6 / 2).
+  { unfold f1s_closed, f1_term, sumR. ev. interval. }
   apply Rabs_le_inv in H. lra.
 Qed.
 
-Lemma f1s_bound_14 : 1 - / IZR 14 <= f1s 14 <= 1.
+Lemma f1s_bound_11 : 1 - / IZR 11 <= f1s 11 <= 1.
 Proof.
-  assert (H : Rabs (f1s 14 - (1 - / IZR 14 / 2)) <= / IZR 14 / 2).
-  { unfold f1s, fourier1_dir, sumR. ev. interval. }
+  rewrite f1s_closed_form by (clear; lia).
+  assert (H : Rabs (f1s_closed 11 - (1 - / IZR 11 / 2)) <= / IZR 11 / 2).
+  { unfold f1s_closed, f1_term, sumR. ev. interval. }
   apply Rabs_le_inv in H. lra.
 Qed.
 
 Lemma f1s_bound_22 : 1 - / IZR 22 <= f1s 22 <= 1.
 Proof.
-  assert (H : Rabs (f1s 22 - (1 - / IZR 22 / 2)) <= / IZR 22 / 2).
-  { unfold f1s, fourier1_dir, sumR. ev. interval. }
+  rewrite f1s_closed_form by (clear; lia).
+  assert (H : Rabs (f1s_closed 22 - (1 - / IZR 22 / 2)) <= / IZR 22 / 2).
+  { unfold f1s_closed, f1_term, sumR. ev. interval. }
   apply Rabs_le_inv in H. lra.
 Qed.
 
 Lemma f1s_bound_27 : 1 - / IZR 27 <= f1s 27 <= 1.
 Proof.
-  assert (H : Rabs (f1s 27 - (1 - / IZR 27 / 2)) <= / IZR 27 / 2).
-  { unfold f1s, fourier1_dir, sumR. ev. interval. }
+  rewrite f1s_closed_form by (clear; lia).
+  assert (H : Rabs (f1s_closed 27 - (1 - / IZR 27 / 2)) <= / IZR 27 / 2).
+  { unfold f1s_closed, f1_term, sumR. ev. interval. }
+  apply Rabs_le_inv in H. lra.
+Qed.
+
+Lemma f1s_bound_38 : 1 - / IZR 38 <= f1s 38 <= 1.
+Proof.
+  rewrite f1s_closed_form by (clear; lia).
+  assert (H : Rabs (f1s_closed 38 - (1 - / IZR 38 / 2)) <= / IZR 38 / 2).
+  { unfold f1s_closed, f1_term, sumR. ev. interval. }
+  apply Rabs_le_inv in H. lra.
+Qed.
+
+Lemma f1s_bound_43 : 1 - / IZR 43 <= f1s 43 <= 1.
+Proof.
+  rewrite f1s_closed_form by (clear; lia).
+  assert (H : Rabs (f1s_closed 43 - (1 - / IZR 43 / 2)) <= / IZR 43 / 2).
+  { unfold f1s_closed, f1_term, sumR. ev. interval. }
+  apply Rabs_le_inv in H. lra.
+Qed.
+
+Lemma f1s_bound_54 : 1 - / IZR 54 <= f1s 54 <= 1.
+Proof.
+  rewrite f1s_closed_form by (clear; lia).
+  assert (H : Rabs (f1s_closed 54 - (1 - / IZR 54 / 2)) <= / IZR 54 / 2).
+  { unfold f1s_closed, f1_term, sumR. ev. interval. }
+  apply Rabs_le_inv in H. lra.
+Qed.
+
+Lemma f1s_bound_59 : 1 - / IZR 59 <= f1s 59 <= 1.
+Proof.
+  rewrite f1s_closed_form by (clear; lia).
+  assert (H : Rabs (f1s_closed 59 - (1 - / IZR 59 / 2)) <= / IZR 59 / 2).
+  { unfold f1s_closed, f1_term, sumR. ev. interval. }
   apply Rabs_le_inv in H. lra.
 Qed.
